@@ -7,7 +7,8 @@ FUNCTIONS = ['uxarray.core.dataarray.UxDataArray._copy',
     'uxarray.core.dataarray.UxDataArray._slice_from_grid@dims=n_face',
     'uxarray.core.dataarray.UxDataArray._slice_from_grid@dims=n_node',
     'uxarray.core.dataarray.UxDataArray._slice_from_grid@dims=lev,n_edge',
-    'uxarray.core.dataarray.UxDataArray._slice_from_grid@dims=time']
+    'uxarray.core.dataarray.UxDataArray._slice_from_grid@dims=time',
+    'uxarray.grid.grid.Grid.copy']
 STANDINS = ["xarray_ops"]
 ASSUMPTIONS = []
 EXPLANATION = ""
